@@ -1,12 +1,16 @@
 """C02: Verilog identifiers are unique, legal and reproducible (family `namer`).
 
- M  specs/namer/NamerM.tla      L2 model of SignalNamespace under every request order (design level);
-                                counterexamples are replayed on the real code before they count.
- R  specs/namer/NamerInputs.tla TLC enumerates / samples the input space of the hierarchical namer;
-                                the harness executes every case on the real build_signal_namespace.
- T  specs/namer/NamerTrace.tla  TLC judges every recorded call history (one INVARIANT per clause).
- R  specs/namer/NamerModules.tla TLC enumerates design shapes; the real convert() runs in fresh interpreters.
- T  specs/namer/Netlist.tla     TLC judges the declared identifiers, the name table and reproducibility.
+ R  specs/namer/NamerInputs.tla  TLC enumerates / samples the input space of the hierarchical namer;
+                                 the harness executes every case on the real build_signal_namespace / get_name.
+ T  specs/namer/NamerTrace.tla   TLC judges every recorded call history (one INVARIANT per clause) and tells
+                                 which L2 design (as implemented / repaired) the real code follows.
+ M  specs/namer/NamerM.tla       that L2 design of SignalNamespace under every request order (design level);
+                                 counterexamples are replayed on the real code and judged by NamerTrace before
+                                 they count; the proposed repair is model-checked as evidence.
+ R  specs/namer/NamerModules.tla TLC enumerates design shapes; the real convert() runs in fresh interpreters
+                                 (PYTHONHASHSEED 0/1/0, tracer shim on/off).
+ T  specs/namer/Netlist.tla      TLC judges the declared identifiers, the name table and reproducibility.
+ Lexical side (keyword list of IEEE 1800-2017, identifier syntax): specs/namer/VerilogLex.tla.
 """
 import json
 import os
@@ -25,6 +29,7 @@ NAMER_CLAUSES = ["Injective", "OrderIndependentUniqueness", "Stable", "LegalSynt
 NETLIST_CLAUSES = ["DeclUnique", "TableInjective", "DeclLegalSyntax", "DeclNotReserved", "EveryObjectDeclared",
                    "UsedIsDeclared", "Reproducible"]
 M_CLAUSES = ["Injective", "Stable", "LegalSyntax", "NotReserved"]
+L2_CLAUSES = ["L2Agrees", "L2AgreesFixed"]      # informational: which L2 design the code follows
 
 SPACES = {   # (space, mode) per tier; sample sizes for the mixed space
     "quick": [("override", "all"), ("hierarchy", "all"), ("deep", "all"), ("related", "all"), ("reserved", "all"),
@@ -181,7 +186,7 @@ def judge_traces(traces, implpath, timeout=1700):
     def one(b):
         off, part = b
         slim = [{"n": t["n"], "variant": t["variant"], "bases": t["bases"], "ev": t["ev"], "err": t["err"]} for t in part]
-        f, st = tlc_judge("namer/NamerTrace", slim, NAMER_CLAUSES + ["L2Agrees"], extra_env={"IMPL": implpath}, timeout=timeout)
+        f, st = tlc_judge("namer/NamerTrace", slim, NAMER_CLAUSES + L2_CLAUSES, extra_env={"IMPL": implpath}, timeout=timeout)
         for x in f:
             x["tid"] += off
         return f, st
@@ -206,12 +211,12 @@ def _describe_case(case):
 
 
 def _handle_namer_failures(report, coll, fails, traces, meta, origin):
-    drift = 0
+    drift = {"L2Agrees": 0, "L2AgreesFixed": 0}
     for f in fails:
         t = traces[f["tid"]]
         case, run, space = meta[f["tid"]]
-        if f["clause"] == "L2Agrees":
-            drift += 1
+        if f["clause"] in drift:
+            drift[f["clause"]] += 1
             continue
         wit = f["vars"].get("wit", {})
         names = [e[1] for e in t["ev"]]
@@ -225,31 +230,32 @@ def _handle_namer_failures(report, coll, fails, traces, meta, origin):
 
 
 # ------------------------------------------------------------------------------------------ M-mode
-def m_mode(report, coll, tier, implpath):
+def m_mode(report, coll, tier, implpath, design):
+    """explores the L2 design the real code was observed to follow (rt_mode) under every request order"""
     nsig = 3 if tier == "quick" else 5
-    base = "INIT Init\nNEXT Next\nCHECK_DEADLOCK FALSE\nCONSTANT NSig = %d\nCONSTANT Fixed = %s\n"
+    fixed_now = design == "repaired"
+    base = "INIT Init\nNEXT Next\nCHECK_DEADLOCK FALSE\nCONSTANT NSig = %d\nCONSTANT Fixed = %s\nCONSTANT Resv = \"%s\"\n"
 
     def one(args):
-        fixed, inv = args
-        cfg = base % (nsig, "TRUE" if fixed else "FALSE") + "".join("INVARIANT %s\n" % i for i in inv)
-        return fixed, inv, _tlc("namer/NamerM", cfg, env={"IMPL": implpath}, workers=4, timeout=900, heap="4g")
+        fixed, resv, inv = args
+        cfg = base % (nsig, "TRUE" if fixed else "FALSE", resv) + "".join("INVARIANT %s\n" % i for i in inv)
+        return fixed, resv, inv, _tlc("namer/NamerM", cfg, env={"IMPL": implpath}, workers=4, timeout=900, heap="4g")
 
-    jobs = [(False, [c]) for c in M_CLAUSES] + [(True, M_CLAUSES)]
+    jobs = [(fixed_now, "impl", [c]) for c in M_CLAUSES] + [(True, "std", M_CLAUSES)]
     with ThreadPoolExecutor(max_workers=5) as ex:
         results = list(ex.map(one, jobs))
     replays, rmeta = [], []
-    mstat = {}
-    for fixed, inv, r in results:
+    mstat = {"design_explored": "L2GetFixed" if fixed_now else "L2Get", "signals": nsig}
+    for fixed, resv, inv, r in results:
         if r.errors:
             raise MachineryError("TLC failed on NamerM: " + " | ".join(r.errors[:5]))
-        if fixed:
-            mstat["repaired_design_holds"] = r.violated is None
-            mstat["repaired_design_states"] = r.distinct
-            report.add(states=r.distinct, transitions=r.generated)
-            if r.violated is not None:
-                report.note("M-mode: the proposed repair (L2GetFixed) still violates %s in the model" % r.violated)
-            continue
         report.add(states=r.distinct, transitions=r.generated)
+        if resv == "std":
+            mstat["proposed_repair_holds_in_model"] = r.violated is None
+            mstat["proposed_repair_states"] = r.distinct
+            if r.violated is not None:
+                report.note("M-mode: the proposed repair (L2GetFixed, standard keyword list) violates %s in the model" % r.violated)
+            continue
         mstat["%s_states" % inv[0]] = r.distinct
         if r.violated is None:
             mstat[inv[0]] = "holds in the model"
@@ -266,14 +272,14 @@ def m_mode(report, coll, tier, implpath):
     if not replays:
         return
     # confirm on the real code, judge with the trace specification
-    traces = fam.run_jobs(replays, procs=1)
+    traces = fam.run_jobs(replays)
     fails, st, tr = judge_traces(traces, implpath)
     report.add(states=st, transitions=tr, traces_validated_against_impl=len(traces))
     meta = [(c, r, "m-mode") for (c, r, v) in replays]
     _handle_namer_failures(report, coll, fails, traces, meta, "counterexample of NamerM.tla replayed on the real code")
     for k, (clause, predicted) in enumerate(rmeta):
         got = [e[1] for e in traces[k]["ev"]][:len(predicted)]
-        confirmed = any(f["tid"] == k and f["clause"] in (clause, "OrderIndependentUniqueness") for f in fails)
+        confirmed = any(f["tid"] == k and f["clause"] == clause for f in fails)
         if got != predicted or not confirmed:
             print("MODEL-DRIFT namer: counterexample of %s predicted %s, the real code answered %s (%s)" % (
                 clause, predicted, got, "rejected" if confirmed else "accepted by the trace specification"))
@@ -284,7 +290,7 @@ def m_mode(report, coll, tier, implpath):
 SAMPLE_CHUNK = 25000   # sampled cases per TLC enumeration run
 
 
-def rt_mode(report, coll, tier, seed, implpath, scratch):
+def rt_mode(report, coll, tier, seed, implpath, scratch, pool):
     scale = 0 if tier == "quick" else 1
     units = []          # (space, mode, chunk number, size)
     for space, mode in SPACES[tier]:
@@ -315,7 +321,9 @@ def rt_mode(report, coll, tier, seed, implpath, scratch):
     timing = {"tlc_enumeration_s": 0.0, "real_code_s": 0.0, "tlc_judgement_s": 0.0}
     wit = {"runs_with_repeated_request": 0, "runs_with_override": 0, "runs_with_related": 0, "runs_with_suffixed_name": 0,
            "runs_reverse_creation": 0, "runs_list_collection": 0}
-    total = nerr_total = drift_total = 0
+    total = nerr_total = 0
+    drift_total = {"L2Agrees": 0, "L2AgreesFixed": 0}
+    drift_example = {}
     t0 = time.time()
     ex = ThreadPoolExecutor(max_workers=6)
     futures = [ex.submit(enum, u) for u in units]
@@ -357,7 +365,7 @@ def rt_mode(report, coll, tier, seed, implpath, scratch):
             e["cases"] += ncase
             e["runs"] += len(jobs)
             t1 = time.time()
-            traces = fam.run_jobs(jobs)
+            traces = fam.run_jobs(jobs, pool)
             timing["real_code_s"] += time.time() - t1
             nerr = sum(1 for t in traces if t["err"])
             if nerr:
@@ -371,14 +379,15 @@ def rt_mode(report, coll, tier, seed, implpath, scratch):
             timing["tlc_judgement_s"] += time.time() - t1
             report.add(states=st, transitions=tr, traces_validated_against_impl=len(traces))
             drift = _handle_namer_failures(report, coll, fails, traces, meta, "input enumerated by NamerInputs.tla")
-            if drift and not drift_total:
-                i = next(f["tid"] for f in fails if f["clause"] == "L2Agrees")
-                print("MODEL-DRIFT namer: the real get_name differs from the L2 model, e.g. bases %s -> %s" % (
-                    traces[i]["bases"], traces[i]["ev"]))
-            drift_total += drift
-            for i in (0, len(traces) // 2):      # real samples for the evidence
+            for cl in drift:
+                if drift[cl] and cl not in drift_example:
+                    i = next(f["tid"] for f in fails if f["clause"] == cl)
+                    drift_example[cl] = "bases %s -> %s" % (traces[i]["bases"], traces[i]["ev"])
+                drift_total[cl] += drift[cl]
+            if k == 0:                           # a real sample per space for the evidence
+                i = (2 * len(traces)) // 3
                 report.sample({"space": space, "case": _describe_case(meta[i][0]), "request_order": meta[i][1]["req"],
-                               "names_returned_by_real_code": [x[1] for x in traces[i]["ev"]]}, cap=10)
+                               "names_returned_by_real_code": [x[1] for x in traces[i]["ev"]]}, cap=7)
             wit["runs_with_repeated_request"] += sum(1 for t in traces if len(t["ev"]) > t["n"])
             wit["runs_with_override"] += sum(1 for m in meta if any(d["ov"] for d in m[0]))
             wit["runs_with_related"] += sum(1 for m in meta if any(d["rel"] for d in m[0]))
@@ -389,14 +398,26 @@ def rt_mode(report, coll, tier, seed, implpath, scratch):
         ex.shutdown(wait=True, cancel_futures=True)
     if nerr_total * 2 > total:
         raise MachineryError("the real namer raised on %d of %d runs: nothing left to judge" % (nerr_total, total))
-    if drift_total:
-        report.note("MODEL-DRIFT: real get_name differs from Namer!L2Get on %d runs" % drift_total)
+    if drift_total["L2Agrees"] == 0:
+        design = "as_implemented"        # Namer!L2Get: per-base counter only
+    elif drift_total["L2AgreesFixed"] == 0:
+        design = "repaired"              # Namer!L2GetFixed: names handed out are never reused
+    else:
+        design = "unknown"
+        print("MODEL-DRIFT namer: the real get_name follows neither L2 design (L2Get: %d runs differ, e.g. %s; "
+              "L2GetFixed: %d runs differ, e.g. %s)" % (drift_total["L2Agrees"], drift_example.get("L2Agrees"),
+                                                        drift_total["L2AgreesFixed"], drift_example.get("L2AgreesFixed")))
+        report.note("MODEL-DRIFT: real get_name differs from Namer!L2Get on %d runs and from Namer!L2GetFixed on %d runs" % (
+            drift_total["L2Agrees"], drift_total["L2AgreesFixed"]))
     timing = {k: round(v, 1) for k, v in timing.items()}
     report.add(namer_spaces=spaces_ev, namer_timing=timing, namer_runs_rejected_by_impl=nerr_total,
-               l2_model_agrees_with_code=(drift_total == 0), namer_witnesses=wit)
+               l2_design_followed_by_code=design, l2_runs_differing={"L2Get": drift_total["L2Agrees"],
+                                                                     "L2GetFixed": drift_total["L2AgreesFixed"]},
+               namer_witnesses=wit)
     for k, v in wit.items():      # witnesses against vacuity
         if v == 0:
             raise MachineryError("vacuity: witness %s is zero" % k)
+    return design
 
 
 # ------------------------------------------------------------------------------------------ end to end
@@ -420,7 +441,7 @@ def _design_records(sources, labels, scratch):
         for v in VARIANTS:
             o = out[v["tag"]][k]
             run = {"grp": v["grp"], "tag": v["tag"], "ok": bool(o["ok"]), "decls": [], "used": [], "table": [], "lines": [],
-                   "ndate": 2, "err": o["err"]}
+                   "ndate": 3, "err": o["err"]}
             if o["ok"]:
                 try:
                     run["decls"] = fam.declared_identifiers(o["text"])
@@ -521,7 +542,7 @@ def e2e_mode(report, coll, tier, seed, scratch):
             coll.add(sig, len(sources[f["tid"]]), replay, "%s: design %s, %s" % (f["clause"], d["label"], what))
     for d in recs[:2] + recs[-1:]:
         x = next(x for x in d["runs"] if x["ok"])
-        report.sample({"design": d["label"], "interpreter": x["tag"], "declared": [n for _, n in x["decls"]][:24]})
+        report.sample({"design": d["label"], "interpreter": x["tag"], "declared": [n for _, n in x["decls"]][:24]}, cap=10)
     kinds = {}
     for d in recs:
         for x in d["runs"]:
@@ -536,6 +557,7 @@ def e2e_mode(report, coll, tier, seed, scratch):
 # ------------------------------------------------------------------------------------------ entry points
 def run(prop, report, tier, seed):
     scratch = _scratch()
+    pool = fam.make_pool()          # forked before any thread exists
     try:
         implpath = os.path.join(scratch, "impl_reserved.json")
         with open(implpath, "w") as f:
@@ -546,12 +568,14 @@ def run(prop, report, tier, seed):
                       "more than half of the runs raising is a machinery error")
         report.assume("Reserved = IEEE 1800-2017 Annex B (248 keywords), transcribed in specs/namer/VerilogLex.tla")
         coll = _Collector(report)
-        m_mode(report, coll, tier, implpath)
-        rt_mode(report, coll, tier, seed, implpath, scratch)
+        design = rt_mode(report, coll, tier, seed, implpath, scratch, pool)
+        m_mode(report, coll, tier, implpath, design)
         e2e_mode(report, coll, tier, seed, scratch)
         nsig = coll.flush()
         report.add(distinct_rejection_signatures=nsig, clauses=NAMER_CLAUSES + NETLIST_CLAUSES)
     finally:
+        pool.terminate()
+        pool.join()
         shutil.rmtree(scratch, ignore_errors=True)
 
 
@@ -565,12 +589,12 @@ def replay(path):
             implpath = os.path.join(scratch, "impl_reserved.json")
             with open(implpath, "w") as f:
                 json.dump(sorted(fam.impl_reserved()), f)
-            traces = fam.run_jobs([(rp["case"], rp["run"], rp["variant"])], procs=1)
+            traces = fam.run_jobs([(rp["case"], rp["run"], rp["variant"])])
             fails, _, _ = judge_traces(traces, implpath)
         else:
             recs = _design_records([rp["source"]], [rp.get("label", "replay")], scratch)
             fails, _ = judge_designs(recs)
-        fails = [f for f in fails if f["clause"] != "L2Agrees"]
+        fails = [f for f in fails if f["clause"] not in L2_CLAUSES]
         return any(f["clause"] == rp["clause"] for f in fails), fails
     finally:
         shutil.rmtree(scratch, ignore_errors=True)
